@@ -211,6 +211,16 @@ func runC04(c *core.Ctx, ck *Check) {
 			}
 			text := "vers:" + j.scheme + "/" + strings.Join(parts, "|")
 			shapeKey := strings.Join(shape, "")
+			if r.IntN(2) == 0 {
+				// the same constraint text is first seen under another scheme (state kept between calls, e.g. a
+				// cache keyed on the text alone, must not influence this scheme's answer); sorted order of THIS
+				// scheme is usually not the sorted order of the other one
+				other := Schemes[r.IntN(len(Schemes))]
+				if other != j.scheme {
+					eco.SafeVersContains("vers:"+other+"/"+strings.Join(parts, "|"), p.Strs[r.IntN(len(p.Strs))])
+					w.Count("foreign_scheme_pretouches", 1)
+				}
+			}
 			for pi := range p.Strs {
 				want, wf, rule := versDenote(e, cons, p.Vers[pi])
 				if !wf {
